@@ -433,8 +433,8 @@ func work(w *mon.W) {
 			fmt.Fprintf(&calls, "\tenc.Encode(run(%d, r%d.GeneratedRegister))\n", k, k)
 		}
 		writeFile(dir, "main.go", fmt.Sprintf(mainTmpl, imports.String(), calls.String()))
-		writeFile(dir, "go.mod", "module example.com/p\n\ngo 1.19\n\nrequire github.com/cloudwego/hertz v0.0.0\n\nreplace github.com/cloudwego/hertz => /repo\n")
-		sum, _ := os.ReadFile("/repo/go.sum")
+		writeFile(dir, "go.mod", "module example.com/p\n\ngo 1.19\n\nrequire github.com/cloudwego/hertz v0.0.0\n\nreplace github.com/cloudwego/hertz => "+repoDir()+"\n")
+		sum, _ := os.ReadFile(repoDir() + "/go.sum")
 		os.WriteFile(filepath.Join(dir, "go.sum"), sum, 0o644)
 		build := exec.Command("go", "build", "-o", "prog", ".")
 		build.Dir = dir
@@ -497,6 +497,14 @@ func work(w *mon.W) {
 			}
 		}
 	})
+}
+
+// repoDir is /repo unless the seeded-change tooling points the check at a scratch checkout.
+func repoDir() string {
+	if d := os.Getenv("VERIF_REPO"); d != "" {
+		return d
+	}
+	return "/repo"
 }
 
 func tail(s string, n int) string {
